@@ -21,6 +21,7 @@ Definition run_consts (_ : val) : val :=
        VN (h_ioff (new_header 7));         (* NewHeader(7).IndexOffset *)
        VB (enc_v2hdr (with_data_padding 5 (new_header 9)));  (* header bytes as WriteTo emits them *)
        VB (ld (enc_header (Some []) 1));   (* WriteHeader of an empty (non-nil) root list *)
-       VN (uv_size 127); VN (uv_size 128); VN (uv_size 16384)  (* varint.UvarintSize *)
+       VN (uv_size 127); VN (uv_size 128); VN (uv_size 16384); (* varint.UvarintSize *)
+       VN codec_insertion                  (* InsertionIndex.Codec = 0x300003 *)
      ].
 Definition prop_consts (_ _ : val) : val := VT "ok".
